@@ -6,7 +6,7 @@ satisfy the documented precondition, the member returns `.ok` (no out-of-range w
 over-wide shift, no failed contract), re-establishes `Rep` (padding included) and computes what
 `std::bitset` specifies.  All of them hold for every `N ≥ 1` and every `k` (word width `2^k`).
 -/
-import TetlProofs.C17.BitOps
+import TetlProofs.C17.Observers
 namespace Tetl.C17.Props
 open Tetl Tetl.C17
 
@@ -260,5 +260,112 @@ theorem orAssign_rep {N k : Nat} {a b : Words k} {fa fb : Spec.Bits} (ha : Rep N
 theorem xorAssign_rep {N k : Nat} {a b : Words k} {fa fb : Spec.Bits} (ha : Rep N k a fa) (hb : Rep N k b fb) :
     ∃ ws', xorAssign a b = .ok ws' ∧ Rep N k ws' (Spec.xor fa fb) :=
   transform2_rep ha hb _ (fun x y => x != y) rfl (fun _ _ _ => by rw [BitVec.getLsbD_xor])
+
+/-! ## construction from `unsigned long long` -/
+
+theorem fromUllLoop_rep {N k : Nat} (val : Word 6) : ∀ (n i : Nat) (ws : Words k) (g : Spec.Bits), Rep N k ws g →
+    i + n ≤ N → i + n ≤ 64 →
+    ∃ ws', fromUllLoop N val n i ws = .ok ws' ∧
+      Rep N k ws' (fun j => if i ≤ j ∧ j < i + n then val.getLsbD j else g j)
+  | 0, i, ws, g, h, _, _ => ⟨ws, rfl, h.congr (fun j _ => by simp; omega)⟩
+  | n + 1, i, ws, g, h, h1, h2 => by
+    have hi : i < 2 ^ 6 := by omega
+    have ht := testBit_spec val (BitVec.ofNat (2 ^ 6) i) (by rw [ofNat_toNat_of_lt hi]; exact hi)
+    rw [ofNat_toNat_of_lt hi] at ht
+    obtain ⟨ws1, hs1, hr1⟩ := uncheckedSet_rep h i (by omega) (val.getLsbD i)
+    obtain ⟨ws', hs', hr'⟩ := fromUllLoop_rep val n (i + 1) ws1 _ hr1 (by omega) (by omega)
+    refine ⟨ws', by simp [fromUllLoop, ht, hs1, hs'], hr'.congr (fun j _ => ?_)⟩
+    by_cases hji : j = i
+    · subst hji; simp [Spec.set1]
+    · have e1 : (i + 1 ≤ j ∧ j < i + 1 + n) = (i ≤ j ∧ j < i + (n + 1)) := by apply propext; omega
+      simp only [e1, Spec.set1, hji, if_false]
+
+/-- `bitset(unsigned long long val)` / `basic_bitset(unsigned long long val)` -/
+theorem fromUll_rep (N k v : Nat) (hv : v < 2 ^ 64) :
+    ∃ ws', fromUll N k v = .ok ws' ∧ Rep N k ws' (Spec.ofNat v) := by
+  obtain ⟨ws', hs, hr⟩ := fromUllLoop_rep (N := N) (k := k) (BitVec.ofNat (2 ^ 6) v) (min 64 N) 0 (init N k) _
+    (init_rep N k) (by omega) (by omega)
+  refine ⟨ws', hs, hr.congr (fun j hj => ?_)⟩
+  simp only [Spec.ofNat, Spec.zero, BitVec.getLsbD_ofNat, Nat.zero_le, true_and, Nat.zero_add]
+  by_cases h64 : j < 64
+  · have : j < min 64 N := by omega
+    simp [this, h64]
+  · have : ¬ j < min 64 N := by omega
+    have hlt : v < 2 ^ j := Nat.lt_of_lt_of_le hv (Nat.pow_le_pow_right (by decide) (by omega))
+    simp [this, Nat.testBit_lt_two_pow hlt]
+
+/-! ## whole-set observers: the padding bits never influence a result -/
+
+/-- `none()` -/
+theorem none_eq {N k : Nat} {ws : Words k} {f : Spec.Bits} (h : Rep N k ws f) : none ws = Spec.none N f := by
+  rw [Bool.eq_iff_iff, none_iff h]
+  simp only [Spec.none, Spec.any, Bool.not_eq_true', List.any_eq_false, List.mem_range]
+  constructor
+  · intro hf i hi; simp [hf i hi]
+  · intro hf i hi; simpa using hf i hi
+
+/-- `any()` -/
+theorem any_eq {N k : Nat} {ws : Words k} {f : Spec.Bits} (h : Rep N k ws f) : any ws = Spec.any N f := by
+  have := none_eq h
+  simp only [Spec.none] at this
+  simp [any, this]
+
+/-- `operator==` -/
+theorem eq_eq {N k : Nat} {a b : Words k} {fa fb : Spec.Bits} (ha : Rep N k a fa) (hb : Rep N k b fb) :
+    eq a b = Spec.eq N fa fb := by
+  rw [Bool.eq_iff_iff]
+  simp only [eq, beq_iff_eq, Spec.eq, rangeAll_iff]
+  exact eq_iff ha hb
+
+/-- `count()` -/
+theorem count_eq' {N k : Nat} {ws : Words k} {f : Spec.Bits} (h : Rep N k ws f) : count ws = Spec.count N f :=
+  count_eq h
+
+/-- `all()` -/
+theorem all_eq {N k : Nat} {ws : Words k} {f : Spec.Bits} (hN : 0 < N) (h : Rep N k ws f) :
+    all N ws = .ok (Spec.all N f) := by
+  have hnw := numWords_pos N k hN
+  have hlen := h.len
+  by_cases hp : hasPadding N k = true
+  · obtain ⟨m, hm, hmb⟩ := paddingMaskInv_spec N k hN
+    have hne : ws.length ≠ 0 := by omega
+    have hlt : numWords N k - 1 < ws.length := by omega
+    simp only [all, hp, if_true, hne, if_false, rd_ok hlt, hm, ok_bind]
+    congr 1
+    rw [Bool.eq_iff_iff, Spec.all, rangeAll_iff, ← all_words_iff hN h m hmb, Bool.and_eq_true, all_iff_getElem]
+    constructor
+    · rintro ⟨h1, h2⟩
+      refine ⟨fun q hq hl => ?_, fun _ => by simpa using h2⟩
+      have hq' : q < (ws.take (ws.length - 1)).length := by simp; omega
+      have := h1 q hq'
+      simpa using this
+    · rintro ⟨h1, h2⟩
+      refine ⟨fun q hq => ?_, by simpa using h2 hlt⟩
+      have hq1 : q < ws.length - 1 := by simp at hq; omega
+      simpa using h1 q (by omega) (by omega)
+  · have hp0 : padding N k = 0 := by simpa [hasPadding] using hp
+    have hpadd := padding_add N k
+    simp only [all, hp, Bool.false_eq_true, if_false]
+    congr 1
+    rw [Bool.eq_iff_iff, Spec.all, rangeAll_iff, all_iff_getElem]
+    constructor
+    · intro h1 i hi
+      have hq : i / 2 ^ k < ws.length := by rw [h.len]; exact wordIndex_lt hi
+      have hmod : i % 2 ^ k < 2 ^ k := Nat.mod_lt _ (two_pow_pos' k)
+      have hb := h.bit i
+      rw [bitAt_eq_getLsbD ws i hq] at hb
+      have := h1 _ hq
+      simp only [beq_iff_eq] at this
+      rw [this] at hb
+      simpa [ones, hmod, hi] using hb.symm
+    · intro hf q hq
+      simp only [beq_iff_eq]
+      apply BitVec.eq_of_getLsbD_eq
+      intro j hj
+      have h5 : (q + 1) * 2 ^ k ≤ numWords N k * 2 ^ k := Nat.mul_le_mul_right _ (by omega)
+      rw [Nat.add_mul, Nat.one_mul] at h5
+      have : q * 2 ^ k + j < N := by omega
+      rw [h.word q hq j hj]
+      simp [ones, hj, this, hf _ this]
 
 end Tetl.C17.Props
